@@ -8,6 +8,7 @@ import (
 	"fmt"
 	"sort"
 	"sync"
+	"sync/atomic"
 	"time"
 
 	"github.com/cnotch/ipchub/provider/route"
@@ -91,7 +92,11 @@ func Get(path string) *Stream {
 
 	si, ok := streams.Load(path)
 	if ok {
-		return si.(*Stream)
+		s := si.(*Stream)
+		// 已关闭的流（等待发布者退出）不再对外可见
+		if atomic.LoadInt32(&s.status) == StreamOK {
+			return s
+		}
 	}
 	return nil
 }
@@ -137,6 +142,9 @@ func GetOrCreate(path string) *Stream {
 func Count() (sc, cc int) {
 	streams.Range(func(key, value interface{}) bool {
 		s := value.(*Stream)
+		if atomic.LoadInt32(&s.status) != StreamOK {
+			return true
+		}
 		sc++
 		cc += s.ConsumerCount()
 		return true
@@ -150,6 +158,9 @@ func Infos(pagetoken string, pagesize int, includeCS bool) (int, []*StreamInfo) 
 
 	streams.Range(func(key, value interface{}) bool {
 		s := value.(*Stream)
+		if atomic.LoadInt32(&s.status) != StreamOK {
+			return true
+		}
 		rtp[s.Path()] = s.Info(includeCS)
 		return true
 	})
